@@ -25,6 +25,18 @@ size_t g_k, g_j, g_lm1, g_lm2, g_lm3;
 /* the process working directory: identity and length of its path; the buffer getcwd() last filled */
 size_t g_cwd_id, g_cwd_len, g_prev_cwd_id; const char *g_cwdbuf; size_t g_cwdbuf_id, g_cwdbuf_len;
 size_t g_chdir_calls, g_getcwd_calls;
-_Bool g_thrown;
-static void X_throw(const char *what) { g_thrown = 1; }
+int g_thrown, g_throw_code;
+static void X_throw(const char *what) { g_thrown = 2; }
+static void X_throw_code(const char *what, int code) { g_thrown = 1; g_throw_code = code; }
+/* ---- the ASSUMED directory-stream contract: a directory is a sequence of g_nent entries with arbitrary names ---- */
+#ifndef DENT_MAX
+#define DENT_MAX ((size_t)1 << 20)
+#endif
+struct dirent { char d_name[256]; };
+struct DIR { int unused; };
+struct PathList { size_t len; };                 /* std::forward_list<Path>: only its length is observed */
+struct dirent *g_ents; size_t g_nent, g_dir_pos; _Bool g_dir_open; struct DIR g_dir;
+_Bool g_exists, g_isdir;                         /* facts about the path */
+size_t g_e, g_e_listed, g_closedir_calls;        /* a watched entry: how often it was put into the result */
+#define DOTNAME(n) (((n)[0] == '.' && (n)[1] == 0) || ((n)[0] == '.' && (n)[1] == '.' && (n)[2] == 0))
 #endif
